@@ -68,6 +68,10 @@ theorem puso_value_eq_model (z : Var → Rat) (H : Poly) : puso_value z H = puso
     first
     | (simp only [neg_one_pow_mod_two]; done)
     | (rw [neg_one_pow_eq_pow_mod_two]; simp only [neg_one_pow_mod_two]; done)
+    -- any other way of writing the sign: decide it on the parity of the count
+    | (rcases Nat.mod_two_eq_zero_or_one (countNeg z k) with h | h <;> simp [h, neg_one_pow_mod_two, pow_succ]; done)
+    | (rcases Nat.mod_two_eq_zero_or_one (countNeg z k) with h | h <;> simp_all [neg_one_pow_mod_two]; done)
+    | (split_ifs <;> simp_all <;> omega)
 
 /-- `quso_value(z, L)` (generated) is the model's `qusoValue` -/
 theorem quso_value_eq_model (z : Var → Rat) (L : Poly) : quso_value z L = qusoValue z L := by
